@@ -146,13 +146,47 @@ def case(job):
                             problems.append((f"rule {e['selector']!r} needs attention but its text colour changed {e['raw_t']!r} ({e['text']}) -> {rc[0]!r} ({rc[2]})", e['trigger'], e))
     ncards = len(cards)
     if trigs[0] == 'var-shared':
-        problems = [(k, trigs[0], d) for k, t, d in problems]
+        # The recorded finding F6 is ONE specific behaviour: rules are handled in document order, an adjusted rule rewrites the definition of
+        # the property it references, and later rules are judged against the rewritten value.  That behaviour is simulated here; only when
+        # the command's outcome (counts, reported colours in order, final values of the custom properties) is exactly the simulated one are
+        # the symptoms attributed to the known finding - any other outcome on such a sheet is a different violation and is reported.
+        sim = simulate_shared_property(rules, props, dbg, mode, premium, target, lib, oc)
+        got = {'counts': (st['accessible'], st['tuned'], st['failed']), 'reported': [c['after'] for c in cards],
+               'properties': {k: (H.css_rgb(v) if v is not None else None) for k, v in (H.custom_properties(out_css) if out_css is not None else {}).items()}}
+        want = {'counts': sim['counts'], 'reported': sim['reported'], 'properties': {k: (H.css_rgb(v) if v is not None else None) for k, v in sim['properties'].items()}}
+        same = got['counts'] == want['counts'] and [H.css_rgb(x) for x in got['reported']] == [H.css_rgb(x) for x in want['reported']] and all(got['properties'].get(k) == v for k, v in want['properties'].items())
+        label = 'var-shared' if same else 'var-shared:unexpected-outcome'
+        problems = [(k, label, d if same else {'command': got, 'known_behaviour_would_give': want}) for k, t, d in problems]
     elif trigs[0] == 'unserialisable-declaration':
         # the abort explains exactly "no output written" and "rules after the offending one not counted"; when a shared custom
         # property is present as well, every other kind of failure on the sheet is attributed to that construct instead
         other = 'var-shared' if 'var-shared' in present else trigs[0]
         problems = [(k, trigs[0] if kind_of(k) in ('no-output-written', 'counted-not-exactly-once') else other, d) for k, t, d in problems]
     return {'name': name, 'opts': list(opts), 'n_rules': n, 'cards': ncards, 'count_note': count_note, 'problems': [(k, t, json.loads(json.dumps(d, default=str)) if d is not None else None) for k, t, d in problems], 'css': css, 'features': sorted(feats)}
+
+
+def simulate_shared_property(rules, props, dbg, mode, premium, target, lib, oc):
+    """the recorded behaviour F6: document order, write-through to the referenced property, later rules see the rewritten value"""
+    cur = dict(props)
+    counts = [0, 0, 0]; reported = []
+    for sel, decls, depth, bad in rules:
+        rc = H.rule_colours(decls, cur, dbg)
+        if rc is None: continue
+        raw_t, raw_b, rt, rb = rc
+        cat, col = 'attention', None
+        if rt is not None and rb is not None:
+            pair = lib.ColorPair(rt, rb)
+            if pair.is_valid:
+                if oc.contrast(oc.FloatK, pair.text.rgb, pair.bg.rgb) >= target: cat = 'readable'
+                else:
+                    col, ok = pair.make_readable(mode, very_readable=premium)
+                    cat = 'adjusted' if ok else 'attention'
+        counts[('readable', 'adjusted', 'attention').index(cat)] += 1
+        if cat == 'adjusted':
+            reported.append(col)
+            m = H._VAR.match(raw_t.strip())
+            if m and m.group(1) in cur: cur[m.group(1)] = col
+    return {'counts': tuple(counts), 'reported': reported, 'properties': {k: v for k, v in cur.items() if props.get(k) != v}}
 
 
 def kind_of(msg):
